@@ -206,8 +206,9 @@ def col_object(c, spec):
     raise ValueError(k)
 
 
-def build(spec):
-    """create the target classes and the class of the declaration (bound to the private SQLite connection)"""
+def build(spec, col_objs=None, extra=None):
+    """create the target classes and the class of the declaration (bound to the private SQLite connection);
+    `col_objs`: Col definition objects to (re)use instead of fresh ones; `extra`: further class attributes"""
     import sqlobject as so
     conn = env()['conns']['sqlite']
     for tg in spec['targets']:
@@ -235,10 +236,52 @@ def build(spec):
         meta['idSize'] = spec['idSize']
     body = {'_connection': conn, 'sqlmeta': type('sqlmeta', (), meta)}
     for c in spec['cols']:
-        body[c['name']] = col_object(c, spec)
+        body[c['name']] = col_objs[c['name']] if col_objs is not None else col_object(c, spec)
     for ix in spec['indexes']:
         body[ix['name']] = so.DatabaseIndex(*[spec['cols'][i]['name'] for i in ix['cols']], unique=ix['unique'])
+    body.update(extra or {})
     return type(spec['cls'], (so.SQLObject,), body)
+
+
+REUSE_MODES = ['shared', 'versioned-shared', 'subclass', 'versioned-subclass', 'readd', 'versioned-readd']
+
+
+def build_reused(ctx, spec, mode):
+    """The declaration reaches the class under test through definitions that were already used: the same Col objects
+    after another class was built from them (optionally a class with Versioning(), which derives a <Class>Versions
+    table from them), a plain Python subclass of such a class, or a column deleted and added again.  Returns
+    (spec of the class under test, class) or None when the library refuses the combination."""
+    import sqlobject as so
+    from sqlobject.versioning import Versioning
+    col_objs = {c['name']: col_object(c, spec) for c in spec['cols']}
+    first = dict(spec, cls=sqlo.uniq('C14Reuse1'), table=None)
+    extra = {'versions': Versioning()} if mode.startswith('versioned') else None
+    try:
+        cls1 = build(first, col_objs, extra)
+    except Exception as e:
+        ctx.count('reuse-rejected:%s:%s' % (mode, type(e).__name__))
+        return None
+    kind = mode.split('-')[-1]
+    try:
+        if kind == 'shared':
+            spec2 = dict(spec, cls=sqlo.uniq('C14Reuse2'))
+            return spec2, build(spec2, col_objs)
+        if kind == 'subclass':
+            cls2 = type(sqlo.uniq('C14Reuse2Sub'), (cls1,), {})
+            spec2 = dict(spec, cls=cls2.__name__, table=cls2.sqlmeta.table, idName=cls2.sqlmeta.idName, indexes=[])
+            return spec2, cls2
+        # readd: every column in turn leaves the class and comes back (same definition object), no schema change
+        for c in spec['cols']:
+            cls1.sqlmeta.delColumn(cls1.sqlmeta.columns[c['name'] + 'ID' if c['kind'][0] == 'f' else c['name']])
+            cls1.sqlmeta.addColumn(col_objs[c['name']])
+        spec2 = dict(spec, cls=cls1.__name__, table=cls1.sqlmeta.table, idName=cls1.sqlmeta.idName)
+        if [c.origName for c in cls1.sqlmeta.columnList] != [c['name'] for c in spec['cols']]:
+            ctx.count('reuse-skipped:column-order')
+            return None
+        return spec2, cls1
+    except Exception as e:
+        ctx.count('reuse-rejected:%s:%s' % (mode, type(e).__name__))
+        return None
 
 
 def impl_texts(cls, dialect):
@@ -382,7 +425,7 @@ RENDERS_FK_INLINE = ('sqlite', 'mssql', 'sybase')
 
 def minimal_case(spec, ci, dialect):
     c = spec['cols'][ci]
-    return {'dialect': dialect, 'col': {k: v for k, v in c.items() if k != 'default'},
+    return {'dialect': dialect, 'reuse': spec.get('reuse'), 'col': {k: v for k, v in c.items() if k != 'default'},
             'targets': [{k: v for k, v in t.items() if k != 'obj'} for t in spec['targets']]}
 
 
@@ -500,11 +543,28 @@ def sample_value(c, spec, conn):
         return vals[0] if vals else None
     if t == 'f':
         tg = spec['targets'][k[1]]
-        if tg['idStr']:
-            return None
         tg['obj'].createTable(ifNotExists=True)
-        return tg['obj'](n=1).id
+        # the referenced row gets an explicit key, edge values of the key domain included
+        want = pick_id(tg['idStr'], salt=len(tg['cls']) + k[1])
+        if want is None:
+            return tg['obj'](n=1).id
+        try:
+            return tg['obj'].get(want).id
+        except Exception:
+            return tg['obj'](id=want, n=1).id
     raise ValueError(k)
+
+
+INT_IDS = [None, 0, 0, 1, 7, -3, 2 ** 40]
+STR_IDS = ['', '', 'k', "o'q", ' ', 'K-1', '0']
+_pick = [0]
+
+
+def pick_id(is_str, salt=0):
+    """explicit primary keys to insert under: None = let the database assign (integer keys only)"""
+    _pick[0] += 1
+    pool = STR_IDS if is_str else INT_IDS
+    return pool[(_pick[0] + salt) % len(pool)]
 
 
 def same_value(a, b):
@@ -580,8 +640,12 @@ def sqlite_oracle(ctx, spec, cls):
             if fks.get(d['db']) != want_fk:
                 ctx.oracle_fail('C14:sqlite:fk', 'foreign_key_list gives %r for %s, declared %r' % (fks.get(d['db']), d['db'], want_fk),
                                 minimal_case(spec, ci, 'sqlite'))
-        # a row goes in and comes back
-        if not spec['idStr']:
+        # rows go in — under a database-assigned key and under explicit keys incl. the edge of the key domain
+        # (0, '', negative, large) — and come back through the class and in the table under exactly that key
+        has_unique = any(d['uq'] for d in decl) or any(ix['unique'] for ix in spec['indexes'])
+        for attempt in range(1 if has_unique else 2):
+            want_id = pick_id(spec['idStr'], salt=attempt)
+            id_case = {'spec': key_spec, 'explicit_id': want_id}
             try:
                 vals = {}
                 for c in spec['cols']:
@@ -590,20 +654,49 @@ def sqlite_oracle(ctx, spec, cls):
                         vals = None
                         break
                     vals[c['name']] = v
-                if vals is not None:
-                    obj = cls(**vals)
-                    oid = obj.id
-                    obj.expire()
-                    back = cls.get(oid)
-                    for c in spec['cols']:
-                        name = c['name'] + 'ID' if c['kind'][0] == 'f' else c['name']
-                        if not same_value(getattr(back, name), vals[c['name']]):
-                            ctx.oracle_fail('C14:sqlite:%s:readback' % kind_tag(c['kind']),
-                                            'inserted %r, read back %r' % (vals[c['name']], getattr(back, name)),
-                                            {'spec': key_spec})
-                    ctx.count('row-roundtrip')
+                if vals is None:
+                    break
+                idn = cls.sqlmeta.idName
+                before_ids = [r[0] for r in conn.queryAll('SELECT %s FROM %s' % (idn, table))]
+                if want_id in before_ids:
+                    continue
+                kw = dict(vals)
+                if want_id is not None:
+                    kw['id'] = want_id
+                try:
+                    obj = cls(**kw)
+                except Exception as e:
+                    if want_id is None:
+                        raise
+                    stored = [r[0] for r in conn.queryAll('SELECT %s FROM %s' % (idn, table)) if r[0] not in before_ids]
+                    ctx.oracle_fail('C14:sqlite:explicit-id:insert-raises',
+                                    'creating a row with the explicit %s key %r raises %s; the table now holds new key(s) %r'
+                                    % ('string' if spec['idStr'] else 'integer', want_id, sqlo.exc_name(e), stored), id_case)
+                    break
+                oid = obj.id
+                new_ids = [r[0] for r in conn.queryAll('SELECT %s FROM %s' % (idn, table)) if r[0] not in before_ids]
+                if want_id is not None and (oid != want_id or new_ids != [want_id] or type(new_ids[0]) is not type(want_id)):
+                    ctx.oracle_fail('C14:sqlite:explicit-id:stored-under-other-key',
+                                    'row created with explicit key %r: object says %r, table holds %r' % (want_id, oid, new_ids), id_case)
+                    break
+                conn.cache.clear()
+                back = cls.get(oid)
+                for c in spec['cols']:
+                    name = c['name'] + 'ID' if c['kind'][0] == 'f' else c['name']
+                    if not same_value(getattr(back, name), vals[c['name']]):
+                        ctx.oracle_fail('C14:sqlite:%s:readback' % kind_tag(c['kind']),
+                                        'inserted %r, read back %r' % (vals[c['name']], getattr(back, name)), id_case)
+                    if c['kind'][0] == 'f' and vals[c['name']] is not None:
+                        other = getattr(back, c['name'])
+                        if other is None or other.id != vals[c['name']]:
+                            ctx.oracle_fail('C14:sqlite:fk:reference-unresolved',
+                                            'foreign key %s holds %r but the attribute resolves to %r'
+                                            % (name, vals[c['name']], other if other is None else other.id), id_case)
+                ctx.count('row-roundtrip')
+                ctx.count('row-roundtrip:id=%r' % (want_id if want_id in (None, 0, '') else 'other'))
             except Exception as e:
-                ctx.oracle_fail('C14:sqlite:insert-fails', 'insert / read back raises %s: %s' % (type(e).__name__, e), {'spec': key_spec})
+                ctx.oracle_fail('C14:sqlite:insert-fails', 'insert / read back raises %s: %s' % (type(e).__name__, e), id_case)
+                break
         # create-if-missing twice, drop-if-present twice
         before = conn.queryAll("SELECT type, name, sql FROM sqlite_master WHERE tbl_name = '%s' ORDER BY name" % table)
         try:
@@ -1296,9 +1389,21 @@ def canon(spec):
     return repr(sorted(s.items(), key=lambda kv: kv[0]))
 
 
-def run_spec(ctx, spec, micro, mx, sample=False):
+def run_spec(ctx, spec, micro, mx, sample=False, reuse=None):
     try:
-        cls = build(spec)
+        if reuse is None:
+            cls = build(spec)
+        else:
+            for tg in spec['targets']:
+                if 'obj' not in tg:
+                    build(dict(spec, cls=sqlo.uniq('C14ReuseTgtOnly'), cols=[], indexes=[]))
+                    break
+            r = build_reused(ctx, spec, reuse)
+            if r is None:
+                return
+            spec, cls = r
+            spec = dict(spec, reuse=reuse)
+            ctx.count('reuse:' + reuse)
     except Exception as e:
         ctx.count('declaration-rejected:%s' % type(e).__name__)
         return
@@ -1371,6 +1476,8 @@ def run(ctx):
     ctx = Dedup(ctx)
     for i, spec in enumerate(corpus()):
         run_spec(ctx, spec, micro=bool(i % 2), mx=bool(i % 3 == 0), sample=i < 3)
+    for i, spec in enumerate(corpus()):
+        run_spec(ctx, spec, micro=bool(i % 2), mx=bool(i % 3 == 0), reuse=REUSE_MODES[i % len(REUSE_MODES)])
     scenario_joins(ctx)
     scenario_if_flags(ctx)
     scenario_evolution(ctx)
@@ -1390,7 +1497,8 @@ def run(ctx):
     n = ctx.budget(1000, 20000)
     for i in range(n):
         spec = gen_spec(rng, plain_enum=(rng.random() < 0.85))
-        run_spec(ctx, spec, micro=rng.random() < 0.5, mx=rng.random() < 0.5, sample=(i % 50 == 0))
+        run_spec(ctx, spec, micro=rng.random() < 0.5, mx=rng.random() < 0.5, sample=(i % 50 == 0),
+                 reuse=(rng.choice(REUSE_MODES) if rng.random() < 0.15 else None))
     # malformed stream for the reader: arbitrary text through both readers
     texts = []
     alphabet = ["'", '(', ')', ',', ' ', '\n', 'a', 'NOT', 'NULL', 'UNIQUE', 'PRIMARY', 'KEY', 'x', "''", 'REFERENCES', 't',
@@ -1467,5 +1575,9 @@ def replay(case):
         for t in spec['targets']:
             t.pop('table_real', None)
             t.pop('id_real', None)
-        run_spec(c, spec, False, False)
+        reuse = case.get('reuse') or spec.pop('reuse', None)
+        spec.pop('reuse', None)
+        if reuse and spec.get('table') and not case.get('keep_table'):
+            spec['table'] = None
+        run_spec(c, spec, False, False, reuse=reuse)
     return (not lines), '\n'.join(lines) or 'no property failure on this case'
